@@ -1,5 +1,5 @@
 (* Model of yamlpath/commands/yaml_paths.py: search_for_paths, yield_children,
-   get_search_term; yamlpath/common/searches.py: Searches.search_anchor;
+   record_anchors, get_search_term; yamlpath/common/searches.py: Searches.search_anchor;
    yamlpath/common/anchors.py: Anchors.get_node_anchor, Anchors.scan_for_anchors
    (the `all_anchors` dict main() hands to search_for_paths).
 
@@ -193,6 +193,37 @@ Definition node_hay (n : node) : hay :=
   | _ => HVal (leaf_pyval n)
   end.
 
+(* ---- record_anchors: the walk that only feeds seen_anchors ---- *)
+(* the nested record_anchor(node) *)
+Definition note_anchor (n : node) (seen : list string) : list string :=
+  match get_node_anchor n with
+  | Some a => if mem_string a seen then seen else (seen ++ [a])%list
+  | None => seen
+  end.
+
+(* data.items() lists the merged-in entries too *)
+Fixpoint record_anchors (n : node) (seen : list string) {struct n} : list string :=
+  match n with
+  | NMap _ kvs =>
+      (fix go (l : list (node * node)) (seen : list string) : list string :=
+         match l with
+         | [] => seen
+         | (k, v) :: r => go r (record_anchors v (note_anchor v (note_anchor k seen)))
+         end) kvs seen
+  | NSeq _ els =>
+      (fix go (l : list node) (seen : list string) : list string :=
+         match l with
+         | [] => seen
+         | e :: r => go r (record_anchors e (note_anchor e seen))
+         end) els seen
+  | NSet _ els => fold_left (fun s m => note_anchor m s) els seen
+  | NLeaf _ _ => seen
+  end.
+
+(* `data is not None` for a document that is no container *)
+Definition is_none_leaf (n : node) : bool :=
+  match n with NLeaf _ PNone => true | _ => false end.
+
 Section Search.
 Variable lit : string -> outcome litres.
 Variable re_search : string -> string -> outcome reres.
@@ -316,7 +347,7 @@ Fixpoint yield_children (n : node) (bp : string) (lc : loc) (kd : hkind) (seen :
                 let va := fst va_s in
                 let seen2 := snd va_s in
                 if (negb (o_kalias o) && is_excl ka) || (negb (o_valias o) && is_excl va)
-                then Ok ([], seen2)
+                then Ok ([], record_anchors val seen2)
                 else if is_container val then yield_children val tmp lc' kd seen2
                 else Ok ([mkhit tmp lc' (HChild kd)], seen2))
            kvs 0 seen
@@ -332,11 +363,12 @@ Fixpoint yield_children (n : node) (bp : string) (lc : loc) (kd : hkind) (seen :
   | NLeaf _ _ => Ok ([mkhit (root_slash bp) lc (HChild kd)], seen)
   end.
 
-(* "if expand_children: yield from yield_children(...) else: yield tmp_path" *)
+(* "if expand_children: yield from yield_children(...)
+    else: record_anchors(node, seen_anchors); yield tmp_path" *)
 Definition report (nd : node) (tmp : string) (lc : loc) (kd : hkind) (seen : list string)
   : outcome res :=
   if o_expand o then yield_children nd tmp lc kd seen
-  else Ok ([mkhit tmp lc kd], seen).
+  else Ok ([mkhit tmp lc kd], record_anchors nd seen).
 
 (* the merge-key tail of the mapping branch *)
 Definition ymk_hits (pre : string) (lc : loc) (oi : N) : outcome (list hit) :=
@@ -368,6 +400,15 @@ Definition value_part (rec : node -> string -> loc -> list string -> outcome res
       else Ok ([], seen)
   end.
 
+(* the last branch of search_for_paths, "elif data is not None and
+   search_values": the document is a lone scalar (the recursion only ever
+   enters containers), reported by the root path *)
+Definition scalar_root (n : node) (bp : string) (lc : loc) (seen : list string) : outcome res :=
+  if negb (is_none_leaf n) && o_values o then
+    do m <- term_matches (node_hay n);
+    Ok (if m then [mkhit (root_slash bp) lc HValue] else [], seen)
+  else Ok ([], seen).
+
 (* ---- search_for_paths ---- *)
 Fixpoint search_for_paths (n : node) (bp : string) (lc : loc) (seen : list string)
          {struct n} : outcome res :=
@@ -397,7 +438,7 @@ Fixpoint search_for_paths (n : node) (bp : string) (lc : loc) (seen : list strin
                   let ka := fst ka_s in
                   let va := fst va_s in
                   let seen2 := snd va_s in
-                  if negb (o_kalias o) && is_excl ka then Ok ([], seen2)
+                  if negb (o_kalias o) && is_excl ka then Ok ([], record_anchors val seen2)
                   else
                     (* the key part: Some result = `continue` was reached *)
                     do kres <-
@@ -429,7 +470,7 @@ Fixpoint search_for_paths (n : node) (bp : string) (lc : loc) (seen : list strin
                 do m <- term_matches (node_hay key);
                 Ok (if m then [mkhit tmp lc' HMember] else [], snd ka_s))
            els 0 seen
-  | NLeaf _ _ => Ok ([], seen)
+  | NLeaf _ _ => scalar_root n bp lc seen
   end.
 
 End Search.
